@@ -37,7 +37,7 @@ func Spec() *evid.Spec {
 		},
 		MinNontrivial: 40,
 		Lanes: []evid.Lane{
-			{Name: "executions", Children: evid.Const(16, 16), Cases: evid.Const(9, 700), TimeoutS: evid.Const(900, 7200), Setup: setup, Run: run},
+			{Name: "executions", Children: evid.Const(16, 16), Cases: evid.Const(9, 200), TimeoutS: evid.Const(900, 7200), Setup: setup, Run: run},
 			{Name: "staggered", Children: evid.Const(4, 8), Cases: evid.Const(2, 12), TimeoutS: evid.Const(900, 7200), Setup: setup, Run: runStaggered},
 		},
 	}
